@@ -263,7 +263,10 @@ impl TypeResolver {
     variants: &[ObjectOrReference<ObjectSchema>],
     base_name: &str,
   ) -> Result<ConversionOutput<TypeRef>> {
-    let refs = extract_union_fingerprint(variants);
+    let mut refs = extract_union_fingerprint(variants);
+    if refs.len() != variants.len() {
+      refs.clear();
+    }
     let kind = if schema.one_of.is_empty() {
       UnionKind::AnyOf
     } else {
